@@ -17,6 +17,7 @@ import PvModel.Proofs.FDLocal
 import PvModel.Proofs.FD
 import PvModel.Proofs.Stream
 import PvModel.Model.Goals
+import PvModel.Proofs.FDExact
 namespace Pv
 open Term State Strm Goal
 
@@ -79,10 +80,44 @@ theorem C17_lte_narrow (d c : FD) (h : FD.WF d) (t : Int) :
       (fun x y hx hxy => by simp only [decide_eq_true_eq] at *; omega) hc
     simpa using this x
 
+/-! ### the global theorems: propagation loses no solution -/
+
+/-- COMPLETENESS OF PROPAGATION, every posting order, sign, aliasing and hash-iteration order: every
+    valuation that satisfies all posted atoms is still described by the state reached — bounds narrowing,
+    singleton domains turned into bindings, the nested re-runs and the finite-domain extension of `==`
+    never discard a solution.  (Labelling then enumerates each remaining domain: `C17_label_values`.) -/
+theorem C17_no_solution_lost {ord : Order} (ho : OrderOK ord) (n : Nat) (as : List FAtom) (hok : ∀ a ∈ as, a.OK)
+    (st' : State) (h : postAllF ord (State.empty n) as = .ok st') (γ : Subst) (hγ : ∀ a ∈ as, a.Sat γ) :
+    Sem NoI γ st' := (fd_exact_ok ho n as hok st' h γ).2 hγ
+
+/-- a conjunction that FAILS during propagation has no solution at all: no answer is lost to a failure -/
+theorem C17_fail_means_unsat {ord : Order} (ho : OrderOK ord) (n : Nat) (as : List FAtom) (hok : ∀ a ∈ as, a.OK)
+    (h : postAllF ord (State.empty n) as = .fail) : ¬ ∃ γ, ∀ a ∈ as, a.Sat γ := fd_exact_fail ho n as hok h
+
+/-- `==` between finite-domain variables (the step labelling performs for every value): unification, the
+    re-run of the store and `process_extension_fd` together describe exactly the valuations that satisfy
+    the equation -/
+theorem C17_unify_exact {ord : Order} (ho : OrderOK ord) (st : State) (w : WFS st) (hi : Inv st) (u v : Term) :
+    Ref0 NoI (fun γ => apply γ u = apply γ v) st (unify ord st u v) :=
+  unify_sem ho (iok_noI st) w hi u v
+
+
 section Examples
 /-- D14 witness: with `u, v ∈ -2..=2` and `w = -2` the repaired bounds keep all four solutions -/
 example : (timesBounds (-2) 2 (-2) 2 (-2) (-2)) = (.interval (-4) 4, .interval (-2) 2, .interval (-2) 2) := by decide
 example : (FD.interval (-1) 2).iter = [-1, 0, 1, 2] := by decide
+/-- non-vacuity: `==` between two finite-domain variables (interval 1..5, sparse {2,4,7}) moves the domain
+    through `process_extension_fd`; with `!= 2` the only solution 4 is found by propagation alone -/
+private def progU : List FAtom :=
+  [.dom (.var 0) (.interval 1 5), .dom (.var 1) (.sparse [2, 4, 7]), .eq (.var 0) (.var 1),
+   .cst (.diseqfd (.var 1) (Term.num 2))]
+example : ∀ a ∈ progU, a.OK := by
+  intro a ha
+  simp only [progU, List.mem_cons, List.not_mem_nil, or_false] at ha
+  rcases ha with rfl | rfl | rfl | rfl <;> simp [FAtom.OK, FD.WF, FD.StrictSorted, Cst.isDistinct]
+example : (match postAllF Order.default (State.empty 2) progU with
+    | .ok st => st.store.isEmpty && st.dstore.isEmpty && (st.σ 0 == Term.num 4) && (st.σ 1 == Term.num 4)
+    | _ => false) = true := by decide
 end Examples
 
 end Pv
